@@ -538,7 +538,8 @@ def check_response_view(idx):
     partly = set((getattr(idx, 'normalization', None) or {}).get('inlined', {}) or {})      # inlined at some call sites, left at others
     view, done = X.inline_pure_calls(idx, fi0, only=set(getattr(idx, 'unreviewed', None) or []) | partly)
     X.settle_unreviewed(idx, done, {fi0.qualname})
-    if any(isinstance(n, ast.For) for n in walk_own(view.node)):
+    view = X.select_tables(view)         # `[row for row in TABLE if cond]` tested / indexed at its ends is read row by row
+    if any(isinstance(n, ast.For) or (isinstance(n, ast.Assign) and isinstance(n.value, ast.IfExp)) for n in walk_own(view.node)):
         view = X.unrolled(view)          # loops over a literal table of rows (e.g. the two minimum checks) are read row by row
     return view
 
@@ -757,6 +758,9 @@ def make_guards(idx, fi):
             if who is not None:
                 key = 's_match' if who == 'S' else 'e_match'
                 return lambda w: (not w[key]) == positive
+            if isinstance(operand, (ast.Dict, ast.List, ast.Tuple, ast.Set, ast.JoinedStr)) or (
+                    isinstance(operand, ast.Constant) and operand.value is not None):
+                return lambda w: not positive          # a display / literal is an object, never None
             if isinstance(operand, ast.Call) and X.m("self.construct_message(__, __)", operand) is not None:
                 # construct_message returns a grading record or raises (D4.POLICY decides that); where the comparison is
                 # evaluated at all, the result is not None
@@ -1171,7 +1175,12 @@ _W5J_BODY = ('        # Apply the validation pattern\n        pattern = self.con
 
 _W5R_TABLE = ("            msg = None\n            chars = len(student)\n            if chars < min_length:\n                msg = ('Your response is too short ({chars}/{min} characters)'\n                       ).format(chars=chars, min=min_length)\n\n            # Check for minimum word count (more important than character count)\n            words = len(student.split())\n            if words < self.config['min_words']:\n                msg = ('Your response is too short ({words}/{min} words)'\n                       ).format(words=words, min=self.config['min_words'])\n\n", "            requirements = ((len(student), min_length, 'characters'),\n                            (len(student.split()), self.config['min_words'], 'words'))\n            msg = None\n            for count, minimum, units in requirements:\n                if count < minimum:\n                    msg = 'Your response is too short ({count}/{min} {units})'.format(count=count, min=minimum, units=units)\n\n")
 
+_W6_HELPERS = ('    def check_response(self, answer, student_input, **kwargs):\n', '    def check_pattern(self, answer, expect, student, accept_any):\n        """Returns the result for a student input that fails validation_pattern, else None"""\n        pattern = self.config[\'validation_pattern\']\n        if pattern is None:\n            return None\n\n        # The pattern must match the entire input (fullmatch, rather than\n        # appending "$", so that alternations like \'cat|dog\' are anchored too)\n        # If expect doesn\'t match the pattern, a student can never get this right\n        if not accept_any and re.fullmatch(pattern, expect) is None:\n            msg = "The provided answer \'{}\' does not match the validation pattern \'{}\'"\n            raise ConfigError(msg.format(answer[\'expect\'], pattern))\n        # Check to see if the student input matches the validation pattern\n        if re.fullmatch(pattern, student) is None:\n            return self.construct_message(self.config[\'invalid_msg\'],\n                                          self.config[\'explain_validation\'])\n        return None\n\n    def check_minimums(self, student, min_length):\n        """Returns the result for a student input that is too short, else None"""\n        minimums = [(len(student), min_length, \'characters\'),\n                    (len(student.split()), self.config[\'min_words\'], \'words\')]\n        shortfalls = [row for row in minimums if row[0] < row[1]]\n        if not shortfalls:\n            return None\n        # Give student feedback (word count is more important than character count)\n        count, minimum, unit = shortfalls[-1]\n        msg = (\'Your response is too short ({count}/{min} {unit})\'\n               ).format(count=count, min=minimum, unit=unit)\n        return self.construct_message(msg, self.config[\'explain_minimums\'])\n\n    def check_response(self, answer, student_input, **kwargs):\n')
+_W6_BODY = ('        # Apply the validation pattern\n        pattern = self.config[\'validation_pattern\']\n        if pattern is not None:\n            # The pattern must match the entire input (fullmatch, rather than\n            # appending "$", so that alternations like \'cat|dog\' are anchored too)\n            if not accept_any:\n                # Make sure that expect matches the pattern\n                # If it doesn\'t, a student can never get this right\n                if re.fullmatch(pattern, expect) is None:\n                    msg = "The provided answer \'{}\' does not match the validation pattern \'{}\'"\n                    raise ConfigError(msg.format(answer[\'expect\'], pattern))\n\n            # Check to see if the student input matches the validation pattern\n            if re.fullmatch(pattern, student) is None:\n                return self.construct_message(self.config[\'invalid_msg\'],\n                                              self.config[\'explain_validation\'])\n\n        # Perform the comparison\n        if not accept_any:\n            # Check for a match to expect\n            if student != expect:\n                return {\'ok\': False, \'grade_decimal\': 0, \'msg\': \'\'}\n        else:\n            # Check for the minimum length\n            msg = None\n            chars = len(student)\n            if chars < min_length:\n                msg = (\'Your response is too short ({chars}/{min} characters)\'\n                       ).format(chars=chars, min=min_length)\n\n            # Check for minimum word count (more important than character count)\n            words = len(student.split())\n            if words < self.config[\'min_words\']:\n                msg = (\'Your response is too short ({words}/{min} words)\'\n                       ).format(words=words, min=self.config[\'min_words\'])\n\n            # Give student feedback\n            if msg:\n                return self.construct_message(msg,\n                                              self.config[\'explain_minimums\'])\n\n', "        # Apply the validation pattern, then perform the comparison\n        refusal = self.check_pattern(answer, expect, %s, accept_any)\n        if refusal is None:\n            if accept_any:\n                refusal = self.check_minimums(student, min_length)\n            elif student != expect:\n                refusal = {'ok': False, 'grade_decimal': 0, 'msg': ''}\n        if refusal is not None:\n            return refusal\n\n")
+
 MUTANTS = [
+    Mutant('minimums-helper-reports-first-shortfall', SGF, [(_W6_HELPERS[0], _W6_HELPERS[1].replace('shortfalls[-1]', 'shortfalls[0]')), (_W6_BODY[0], _W6_BODY[1] % 'student')], None, 'D34'),
+    Mutant('check-pattern-given-uncleaned-submission', SGF, [_W6_HELPERS, (_W6_BODY[0], _W6_BODY[1] % 'student_input')], None, 'D2'),
     Mutant('minimums-table-compares-with-le', SGF, _W5R_TABLE[0], _W5R_TABLE[1].replace('count < minimum', 'count <= minimum'), 'D34'),
     Mutant('pattern-helper-given-uncleaned-submission', SGF, [_W5J_HELPER, (_W5J_BODY[0], _W5J_BODY[1] % 'student_input')], None, 'D2'),
     Mutant('strip-all-returns-before-case-fold', SGF, [_W5I_CONSTS, (_W5I_OLD, _W5I_HEAD + _W5I_SLIP)], None, 'D1'),
@@ -1221,6 +1230,7 @@ MUTANTS = [
 ]
 
 BENIGN = [
+    Benign('pattern-and-minimums-in-helpers', SGF, [_W6_HELPERS, (_W6_BODY[0], _W6_BODY[1] % 'student')], None),
     Benign('minimums-as-ordered-table', SGF, _W5R_TABLE[0], _W5R_TABLE[1]),
     Benign('pattern-test-in-helper', SGF, [_W5J_HELPER, (_W5J_BODY[0], _W5J_BODY[1] % 'student')], None),
     Benign('case-fold-last-strip-all-elif', SGF, [_W5I_CONSTS, (_W5I_OLD, _W5I_HEAD + _W5I_FIXED)], None),
